@@ -15,7 +15,6 @@ from sa.inline import cond_value_candidates, guard_candidates  # noqa: E402
 from sa.model import Canon  # noqa: E402
 
 funcs, aliases, cvs, guards = [], [], [], []
-pinned_locals = {}
 stored_attrs = set()  # names of attributes assigned anywhere (obj.<a> = ..., class-level NAME = ...): the program's state
 for path in sorted((root / "src").rglob("*.py")):
     rel = path.relative_to(root / "src")
@@ -23,12 +22,6 @@ for path in sorted((root / "src").rglob("*.py")):
     if parts[-1] == "__init__":
         parts.pop()
     mod = ".".join(parts)
-    raw = ast.parse(path.read_text())
-    # local names of every function (by bare function name, union over same-named functions of the module) as written on the
-    # pinned tree: temporaries the rules were written against are kept, temporaries introduced later are substituted away
-    for fn_ in ast.walk(raw):
-        if isinstance(fn_, ast.FunctionDef | ast.AsyncFunctionDef):
-            pinned_locals.setdefault(mod, {}).setdefault(fn_.name, set()).update(x.id for x in ast.walk(fn_) if isinstance(x, ast.Name) and isinstance(x.ctx, ast.Store))
     tree = ast.fix_missing_locations(Canon().visit(ast.parse(path.read_text())))
     for n_ in ast.walk(tree):
         if isinstance(n_, ast.Attribute) and isinstance(n_.ctx, ast.Store | ast.Del):
@@ -78,7 +71,6 @@ out = {
     "cond_values": sorted(set(cvs)),
     "guards": sorted(set(guards)),
     "stored_attrs": sorted(stored_attrs),
-    "locals": {m: {f: sorted(v) for f, v in sorted(d.items())} for m, d in sorted(pinned_locals.items())},
 }
 # statement skeletons of every function as the rules see it (after the normaliser, which is the identity on the pinned tree)
 from sa.drift import skeleton  # noqa: E402
